@@ -869,8 +869,27 @@ class Builder:
         """string literals an immutable local can hold when it is bound by `let x = match/if {.. => "LIT"}` or by a tuple
         pattern over arms that yield tuples with a literal in that position"""
         fn = self.f.fns.get(fname)
-        if not fn or fn.get("hir") is None or name in self.assigned:
+        if not fn or fn.get("hir") is None:
             return None
+        if name in self.assigned:
+            # a mutable local that only ever holds string literals (`let mut sep = ""; .. sep = " ";`): any of them
+            vals = []
+            for n in walk(fn["hir"]):
+                if n.get("k") == "stmt_let" and n["pat"].get("k") == "bind" and n["pat"].get("name") == name:
+                    if n.get("init") is None:
+                        return None
+                    v = H.peel_ref(n["init"])
+                    if not (v.get("k") == "lit" and v["lit"]["t"] == "str"):
+                        return None
+                    vals.append(v["lit"]["v"])
+                elif n.get("k") == "assign" and H.place(n.get("l")) == name:
+                    v = H.peel_ref(n["r"])
+                    if not (v.get("k") == "lit" and v["lit"]["t"] == "str"):
+                        return None
+                    vals.append(v["lit"]["v"])
+                elif n.get("k") == "assignop" and H.place(n.get("l")) == name:
+                    return None
+            return sorted(set(vals)) or None
         out = None
         for n in walk(fn["hir"]):
             if n.get("k") != "stmt_let" or n.get("init") is None:
